@@ -25,8 +25,9 @@ theorem add_spec (fuel : Nat) (s s' : List Rect) (r : Rect)
     (∀ x ∈ s', x.Nonempty) ∧ ∀ l c, Covered s' l c ↔ (Covered s l c ∨ r.Mem l c) :=
   add_region h hr hs
 
-/-- `subtract`: nothing outside the hole is lost, nothing is invented, stored rectangles stay non-empty.
-    (The remaining clause — no cell of the hole stays covered — is `subtract_removes`, see below.) -/
+/-- `subtract`, whatever the shape of the array: nothing outside the hole is lost, nothing is invented,
+    stored rectangles stay non-empty.  (No cell of the hole stays covered: `subtract_removes` below, which
+    needs the invariant.) -/
 theorem subtract_bounds (fuel : Nat) (s s' : List Rect) (r : Rect)
     (h : RectSet.subtract fuel s r = some s') (hr : r.Nonempty) (hs : ∀ x ∈ s, x.Nonempty) :
     (∀ x ∈ s', x.Nonempty) ∧
@@ -183,9 +184,8 @@ theorem run_exact_noSub (fuel : Nat) : ∀ (ops : List Op) (s s' : List Rect) (r
       simp only [Op.apply, RectSet.clear]
       exact ⟨fun h => (covered_nil l c h).elim, fun h => h.elim⟩
 
-/-- **Exactness, partial**: for histories of add/translate/clear the covered cells are exactly the
-    reference region.  (Missing for the full statement `history_exact_full`: the clause
-    `subtract_removes`, which needs the sortedness/disjointness/no-shared-vertical-edge invariant.) -/
+/-- **Exactness without subtract** (does not need the invariant): for histories of add/translate/clear the
+    covered cells are exactly the reference region.  The full statement is `history_exact_full` below. -/
 theorem history_exact_partial (fuel : Nat) (ops : List Op) (s : List Rect)
     (h : runOps fuel [] ops = some s) (hv : Valid ops) (hn : NoSub ops) :
     ∀ l c, Covered s l c ↔ refRegion ops l c :=
@@ -241,17 +241,94 @@ theorem subtract_needs_noStack :
     RectSet.subtract 100 [⟨0, 0, 1, 2⟩, ⟨1, 0, 1, 2⟩, ⟨2, 0, 1, 4⟩, ⟨3, 3, 1, 1⟩] ⟨2, 2, 2, 2⟩ =
       some [⟨0, 0, 3, 2⟩, ⟨3, 3, 1, 1⟩] := by decide +kernel
 
-/-! ### statements kept at full strength, not yet proved (see engines.d/C05.json `open_statements`) -/
+/-! ### subtract, and the full history statement -/
 
-/-- Full statement of the history clause (open): exact region, disjoint, sorted, non-empty. -/
-def history_exact_full : Prop :=
-  ∀ (fuel : Nat) (ops : List Op) (s : List Rect), runOps fuel [] ops = some s → Valid ops →
-    Inv s ∧ ∀ l c, Covered s l c ↔ refRegion ops l c
+/-- **`subtract` is exact and preserves the invariant**: the index loop of `tickit_rectset_subtract` visits
+    every member that meets the hole, although re-adding the remains rearranges the array under it. -/
+theorem subtract_removes (fuel : Nat) (s s' : List Rect) (r : Rect) (hs : Inv s) (hr : r.Nonempty)
+    (h : RectSet.subtract fuel s r = some s') : Inv s' ∧ ∀ l c, Covered s' l c → ¬ r.Mem l c := by
+  obtain ⟨h1, h2⟩ := subtractFrom_clean fuel s r 0 s' h ((inv_iff s).1 hs) hr
+    (by intro j m hj; omega)
+  refine ⟨(inv_iff s').2 h1, ?_⟩
+  rintro l c ⟨m, hm, hmem⟩ hrm
+  have := h2 m hm
+  rs_omega
 
-/-- Full statement of the subtract clause (open). -/
-def subtract_removes : Prop :=
-  ∀ (fuel : Nat) (s s' : List Rect) (r : Rect), Inv s → r.Nonempty →
-    RectSet.subtract fuel s r = some s' → Inv s' ∧ ∀ l c, Covered s' l c → ¬ r.Mem l c
+theorem subtract_spec (fuel : Nat) (s s' : List Rect) (r : Rect) (hs : Inv s) (hr : r.Nonempty)
+    (h : RectSet.subtract fuel s r = some s') :
+    Inv s' ∧ ∀ l c, Covered s' l c ↔ (Covered s l c ∧ ¬ r.Mem l c) := by
+  obtain ⟨h1, h2⟩ := subtract_removes fuel s s' r hs hr h
+  obtain ⟨_, h3, h4⟩ := subtract_bounds fuel s s' r h hr hs.1
+  exact ⟨h1, fun l c => ⟨fun hc => ⟨h3 l c hc, h2 l c hc⟩, fun hc => h4 l c hc.1 hc.2⟩⟩
+
+theorem run_exact (fuel : Nat) : ∀ (ops : List Op) (s s' : List Rect) (reg : Int → Int → Prop),
+    runOps fuel s ops = some s' → Valid ops → Inv s → (∀ l c, Covered s l c ↔ reg l c) →
+    Inv s' ∧ ∀ l c, Covered s' l c ↔ ops.foldl Op.apply reg l c := by
+  intro ops
+  induction ops with
+  | nil =>
+    intro s s' reg h _ hs hreg
+    simp [runOps] at h; subst h
+    exact ⟨hs, hreg⟩
+  | cons o ops ih =>
+    intro s s' reg h hv hs hreg
+    have hvo : Op.Valid o := hv o (by simp)
+    have hvr : Valid ops := fun x hx => hv x (by simp [hx])
+    cases o with
+    | add r =>
+      simp only [runOps, Option.bind_eq_some_iff] at h
+      obtain ⟨s1, h1, h2⟩ := h
+      obtain ⟨_, a2⟩ := add_region h1 hvo hs.1
+      refine ih s1 s' _ h2 hvr (add_inv fuel s s1 r h1 hvo hs) ?_
+      intro l c
+      simp only [Op.apply]
+      rw [a2 l c, hreg l c]
+    | sub r =>
+      simp only [runOps, Option.bind_eq_some_iff] at h
+      obtain ⟨s1, h1, h2⟩ := h
+      obtain ⟨a1, a2⟩ := subtract_spec fuel s s1 r hs hvo h1
+      refine ih s1 s' _ h2 hvr a1 ?_
+      intro l c
+      simp only [Op.apply]
+      rw [a2 l c, hreg l c]
+    | xl d k =>
+      simp only [runOps] at h
+      refine ih _ s' _ h hvr (translate_inv s d k hs) ?_
+      intro l c
+      simp only [Op.apply]
+      rw [covered_translate, hreg]
+    | clear =>
+      simp only [runOps] at h
+      refine ih _ s' _ h hvr (clear_inv s) ?_
+      intro l c
+      simp only [Op.apply, RectSet.clear]
+      exact ⟨fun h => (covered_nil l c h).elim, fun h => h.elim⟩
+
+/-- **The property**: after any history of add/subtract/translate/clear from the empty set, the stored
+    rectangles are non-empty, pairwise disjoint, sorted by top then left (`Inv`), and cover exactly the
+    reference region. -/
+theorem history_exact_full (fuel : Nat) (ops : List Op) (s : List Rect)
+    (h : runOps fuel [] ops = some s) (hv : Valid ops) :
+    Inv s ∧ ∀ l c, Covered s l c ↔ refRegion ops l c :=
+  run_exact fuel ops [] s (fun _ _ => False) h hv (clear_inv [])
+    (fun l c => ⟨fun h => (covered_nil l c h).elim, fun h => h.elim⟩)
+
+/-- The queries after any history: exact answers. -/
+theorem history_queries (fuel : Nat) (ops : List Op) (s : List Rect) (q : Rect)
+    (h : runOps fuel [] ops = some s) (hv : Valid ops) (hq : q.Nonempty) :
+    (RectSet.intersects s q = true ↔ ∃ l c, q.Mem l c ∧ refRegion ops l c) ∧
+    ∀ fuel' b, RectSet.contains fuel' s q = some b → (b = true ↔ ∀ l c, q.Mem l c → refRegion ops l c) := by
+  obtain ⟨hinv, hreg⟩ := history_exact_full fuel ops s h hv
+  refine ⟨?_, ?_⟩
+  · rw [intersects_iff s q hq hinv.1]
+    constructor
+    · rintro ⟨l, c, h1, h2⟩; exact ⟨l, c, h1, (hreg l c).1 h2⟩
+    · rintro ⟨l, c, h1, h2⟩; exact ⟨l, c, h1, (hreg l c).2 h2⟩
+  · intro fuel' b hb
+    rw [contains_iff_full fuel' s q b hinv hq hb]
+    constructor
+    · intro hh l c hm; exact (hreg l c).1 (hh l c hm)
+    · intro hh l c hm; exact (hreg l c).2 (hh l c hm)
 
 /-! ### the generated leaf function is the model's -/
 
@@ -275,6 +352,12 @@ example : runOps 100 [] [.add ⟨0, 0, 3, 3⟩, .sub ⟨1, 1, 1, 1⟩, .xl 1 1] 
     some [⟨1, 1, 1, 3⟩, ⟨2, 1, 1, 1⟩, ⟨2, 3, 1, 1⟩, ⟨3, 1, 1, 3⟩] := by decide +kernel
 
 example : RectSet.contains 10 [⟨0, 0, 1, 6⟩, ⟨1, 4, 2, 2⟩] ⟨0, 4, 3, 2⟩ = some true := by decide +kernel
+
+/-- `subtract` on an array that has the invariant, in a case where the remains of the split member merge
+    with the member before it (the array is rearranged under the loop index). -/
+example : Inv [⟨0, 0, 1, 2⟩, ⟨1, 0, 1, 4⟩, ⟨2, 3, 1, 1⟩] ∧
+    RectSet.subtract 100 [⟨0, 0, 1, 2⟩, ⟨1, 0, 1, 4⟩, ⟨2, 3, 1, 1⟩] ⟨1, 2, 2, 2⟩ = some [⟨0, 0, 2, 2⟩] :=
+  ⟨(inv_iff _).2 (by decide +kernel), by decide +kernel⟩
 
 /-- The invariant holds of a concrete array with touching members, and `contains` answers "no" on it. -/
 example : Inv [⟨0, 0, 1, 6⟩, ⟨1, 4, 2, 2⟩] ∧
